@@ -163,7 +163,9 @@ def case(draw, models=MODELS, nmax=50, nmin=2, extreme=False):
     else:
         # several genealogies with the same sampling times evaluated in one call (node heights [B, 2n-1])
         c["hbatch"] = [draw(logu(0.3, 3.0)) for _ in range(draw(st.sampled_from([0, 0, 1, 2, 3])))]
-    c["as_intervals"] = route == "times" and draw(st.sampled_from([False, False, True]))
+    # every event shifted away from 0 (only expressible through the times form: a tree model puts its youngest tip at 0)
+    c["offset"] = draw(st.sampled_from([0.0, 0.0, 0.0, draw(fl(0.05, 2.0)) * max(g["c"])])) if route == "times" else 0.0
+    c["as_intervals"] = route == "times" and not c["offset"] and draw(st.sampled_from([False, False, True]))
     # library use under torch's float32 default with explicitly float64 Parameters (see tt.default_dtype)
     # only through the times / intervals form: a tree model reads its sampling dates in the default dtype
     c["f32default"] = route == "times" and draw(st.sampled_from([False, False, True]))
@@ -263,7 +265,8 @@ def spec_of(c, theta_rows=None, times_scale=None):
             raise AssertionError("harness: the most recent sample is at time 0")
         return [spec]
     if c["route"] == "times":
-        times = [g["s"][i] for i in c["perm_s"]] + [g["c"][i] for i in c["perm_c"]]
+        off = c.get("offset", 0.0)
+        times = [g["s"][i] + off for i in c["perm_s"]] + [g["c"][i] + off for i in c["perm_c"]]
         events = [1] * n + [0] * (n - 1)
         # interleave: the JSON form accepts events in any order
         order = list(range(2 * n - 1))
@@ -299,6 +302,8 @@ def effective_genealogy(c):
     """sampling times as the model sees them: with calendar dates they are max(date) - date in double
     arithmetic, which differs from the generated value by a rounding error of the size of an ulp of the year"""
     g = c["g"]
+    if c.get("route") == "times" and c.get("offset"):
+        return {"s": [x + c["offset"] for x in g["s"]], "c": [x + c["offset"] for x in g["c"]]}
     if c.get("route") == "times" and c.get("as_intervals"):
         # the model accumulates the waiting times again
         ev = sorted([(t, 1) for t in g["s"]] + [(t, 0) for t in g["c"]])
